@@ -116,6 +116,30 @@ fn main() {
         println!("{}", set.len());
         return;
     }
+    if args[1] == "dump-corpus" {
+        // vcheck dump-corpus <dir> <seed> <n>: seed inputs for the coverage-guided phase
+        let dir = std::path::PathBuf::from(&args[2]);
+        let seed: u64 = args[3].parse().unwrap();
+        let n: u64 = args[4].parse().unwrap();
+        std::fs::create_dir_all(&dir).unwrap();
+        let mut k = 0;
+        for f in docs::corpus() {
+            if f.bytes.len() <= 4096 {
+                std::fs::write(dir.join(format!("corpus-{k:05}")), &f.bytes).unwrap();
+                k += 1;
+            }
+        }
+        for i in 0..n {
+            let mut rng = Rng::new(mix(&[seed, 0xF022, i]));
+            let bytes = if i % 3 == 0 { docs::mutated(&mut rng, true).0 } else { docs::rendered(&mut rng).text.into_bytes() };
+            if bytes.len() <= 4096 {
+                std::fs::write(dir.join(format!("gen-{i:05}")), &bytes).unwrap();
+                k += 1;
+            }
+        }
+        println!("{k}");
+        return;
+    }
     if args[1] == "file" {
         // vcheck file <C01|C04> <path>: judge the bytes of one file
         let bytes = std::fs::read(&args[3]).expect("readable file");
